@@ -7,6 +7,15 @@ TB = ("Trusted: Coq 8.16.1 kernel (vm_compute, no native_compute; no axioms: eve
       "sync.Pool/bufio; the translator tools/gotrans; extraction (ExtrOcamlBasic only) + ocaml/zmodel.ml; the Go harness and its "
       "blob-decoding co-process; for vectors the pure-Go stand-in engine fakefaiss. ")
 CLAIMED = {
+ "C01": ("Coq: declarative spec_of_batch + verified codec round-trips (uvarint, freq/norm, locations, chunk tables, chunkedIntCoder) + translator ties (getChunkSize, encodeFreqHasLocs, numUvarintBytes); correspondence: extracted spec and extracted v16 parser vs the built segment on generated and boundary batches",
+         "The built segment's complete dictionary/postings surface (public API) and the bytes it writes (decoded by the extracted parser) are compared with the extracted specification on structured random batches, all chunk-mode classes and exact 1023/1024/1025/2048-posting boundaries; codec lemmas and chunk-size arithmetic are proved for all inputs and re-proved against the Go source on every run.",
+         "The end-to-end theorem parse(emit(build b)) = spec b over the builder's backing-array model is partial (see DESIGN.md 6 C01: proved pieces listed in coq/props/C01.v); vellum/roaring/snappy abstract.", "6 C01"),
+ "C02": ("Coq: stored-block codec round-trip (Stored.v) + spec_of_batch; correspondence: Count/Fields/stored visits with every early-stop prefix, DocID, DocNumbers vs the extracted spec; file bytes through the extracted parser",
+         "stored_roundtrip / visit_prefix are proved for all documents; the extracted spec decides every stored-field observation on generated batches (repeated names, empty and >64KB values, long array positions, id lists with absent / duplicate / greater-than-max ids).",
+         "snappy abstract; DocNumbers' FST shortcut modelled as ordered-map lookup.", "6 C02"),
+ "C03": ("Coq: visit-state cache invariant for any visit order and segment switching (DvVisit.v) + spec_of_batch; correspondence: doc-value visits in ascending/descending/random order with a reused state across built/opened segments, all doc-value chunk sizes",
+         "C03_any_order proves the cached chunk is coherent after any sequence of visits; the extracted spec decides each visit's term set, on sparse fields with empty chunks between populated ones, chunk sizes 1,2,3,7,1024.",
+         "reuse with a different field list is outside the statement; snappy abstract.", "6 C03"),
  # id: (technique, level text, level_note extra, design_ref)
  "C20": ("Coq theorem by induction over AddRef/DecRef histories (Ref.v) + exhaustive sequential histories and race-detector runs against the model's step function",
          "Theorem C20_refcount: for every history keeping the count positive until the end, the segment stays mapped after each proper prefix and is released exactly once by the last operation (atomic steps => all interleavings). The extracted step function is run against the real Segment on every such sequence up to the bound, observing /proc/self/maps, /proc/self/fd and a full read-back.",
